@@ -106,9 +106,13 @@ class World:
             sep.phase_split(self.ms, [S[o] for o in a['outs']])
         elif op == 'moisture':
             ret, perm = S[a['ret']], S[a['perm']]
-            sep.adjust_moisture_content(ret, perm, a['mc6'] / 1e6, strict=bool(a['strict']) if a['strict'] != NONE else None)
+            mid = IDS[a['water'] - 1]
+            kw = dict(strict=bool(a['strict']) if a['strict'] != NONE else None)
+            if a['by_id']:
+                kw['ID'] = mid          # the keyword path works on mass flows of any chemical
+            sep.adjust_moisture_content(ret, perm, a['mc6'] / 1e6, **kw)
             F = ret.F_mass
-            obs['mc6'] = cap(ret.imass['Water'] / F * 1e6) if F > 0 else 0
+            obs['mc6'] = cap(ret.imass[mid] / F * 1e6) if F > 0 else 0
         elif op == 'partition':
             feed, top, bot = S[a['feed']], S[a['top']], S[a['bot']]
             ids = tuple(IDS[i - 1] for i in a['ids'])
@@ -188,10 +192,12 @@ def random_op(rng, w):
         ret, perm = rng.sample(P, 2)
         mc = rng.choice([0.05, 0.3, 0.5, 0.8, 0.94])
         r, p = w.s[ret], w.s[perm]
-        dry = r.F_mass - r.imass['Water']
+        by_id = rng.random() < 0.5
+        mid = rng.choice(['Water', 'Water', 'Ethanol']) if by_id else 'Water'
+        dry = r.F_mass - r.imass[mid]
         need = dry * mc / (1 - mc)
-        enough = bool(need <= r.imass['Water'] + p.imass['Water'] + 1e-12 and dry > 0)
-        return op, dict(ret=ret, perm=perm, water=1, mc6=int(mc * 1e6), strict=rng.choice([NONE, 1, 0]), enough=enough)
+        enough = bool(need <= r.imass[mid] + p.imass[mid] + 1e-12 and dry > 0)
+        return op, dict(ret=ret, perm=perm, water=IDS.index(mid) + 1, by_id=by_id, mc6=int(mc * 1e6), strict=rng.choice([NONE, 1, 0]), enough=enough)
     if op == 'partition':
         feed, top, bot = rng.sample(P, 3)
         ids = sorted(rng.sample([1, 2, 3], rng.choice([2, 3])))
